@@ -429,7 +429,9 @@ def main():
         want = format(x, "g")
         if rng.random() < 0.5 and x.denominator.bit_length() < 60:
             fl = float(x)
-            if F(fl) == x: want2 = format(fl, "g"); assert want2 == want or x == 0, (x, want, want2)
+            if F(fl) == x and x != 0 and format(fl, "g") != want:
+                # the model identifies a float with the rational it denotes: both must format alike
+                unlisted.append(("float-and-fraction-format-differently", str(x), want, format(fl, "g")))
         defs.append((i, f"Definition c0_{i} := case_g {C.q(x)} {C.text(want)}.\n")); ginfo.append((x, want))
     (bad_g,), broken2 = shards("Cases_C05_g_", defs, 1)
     run.log(f"format(x,'g'): {ng} rationals, mismatches {len(bad_g)}" + (f", first {ginfo[bad_g[0]]}" if bad_g else ""))
@@ -512,6 +514,7 @@ def main():
     ndoc = 5000 if thorough else 300
     cfgs = [("none", None, None), ("clock_time", TE.clock_time, None)]
     rt_defs = []; rt_info = []; nsnap = 0; nrt = 0; wrote = 0; stats = dict(exact=0, inexact=0)
+    tree_print = set(); tree_time = set()
     t0 = time.time()
     for i in range(ndoc):
         r = rng.random()
@@ -540,6 +543,32 @@ def main():
             else: unlisted.append(("writer-raises", i, kind, str(ex)[:100]))
             continue
         wrote += 1
+        # (a) on the tree the writer built: every style attribute and time expression of the tree against M's printers
+        def tree_cases(me, xe):
+            if isinstance(me, m.Text): return
+            for pr in me.iter_styles():
+                cls = isp.StyleProperties.BY_MODEL_PROP[pr]; got = xe.get(f"{{{cls.ns}}}{cls.local_name}")
+                lit_ = DG.sval_lit(pr, me.get_style(pr))
+                if lit_ is not None: tree_print.add((pid[pr], lit_, "WSkip" if got is None else f"(WAttr {C.text(got)})"))
+            if not isinstance(me, m.Br):
+                for nm, tv in (("begin", me.get_begin()), ("end", me.get_end())):
+                    if tv is not None and tv >= 0 and xe.get(nm) is not None:
+                        tree_time.add((SYN[tf] if tf is not None else ("SyFrames" if fps is not None else "SyClock"), C.opt(fps, C.q), C.q(tv), C.text(xe.get(nm))))
+            sets = [c for c in xe if c.tag == IC.q(IC.NS_TT, "set")]
+            for st, xs in zip(me.iter_animation_steps(), sets):
+                cls = isp.StyleProperties.BY_MODEL_PROP[st.style_property]; got = xs.get(f"{{{cls.ns}}}{cls.local_name}")
+                lit_ = DG.sval_lit(st.style_property, st.value)
+                if lit_ is not None: tree_print.add((pid[st.style_property], lit_, "WSkip" if got is None else f"(WAttr {C.text(got)})"))
+            kids = [c for c in xe if c.tag != IC.q(IC.NS_TT, "set")]
+            mk = [c for c in me if not isinstance(c, m.Text)]
+            if len(kids) == len(mk):
+                for a, b in zip(mk, kids): tree_cases(a, b)
+        root = tree.getroot()
+        xb = root.find(IC.q(IC.NS_TT, "body"))
+        if xb is not None and doc.get_body() is not None and "negative-time" not in trig: tree_cases(doc.get_body(), xb)
+        for xr in root.iter(IC.q(IC.NS_TT, "region")):
+            mr = doc.get_region(xr.get(IC.q(IC.NS_XML, "id")))
+            if mr is not None and "negative-time" not in trig: tree_cases(mr, xr)
         h = IC.LogCapture(); lg = logging.getLogger("ttconv"); lg.addHandler(h); lg.setLevel(logging.DEBUG)
         try:
             doc2 = ir.to_model(et.ElementTree(et.fromstring(data)))
@@ -599,6 +628,12 @@ def main():
                 if why:
                     unlisted.append(("snapshot-differs", i, str(t), why, data.decode()[:600])); break
     (bad_rt_t, bad_rt_o, bad_rt_v), broken5 = shards("Cases_C05_rt_", rt_defs, 3)
+    tdefs2 = [(j, f"Definition c0_{j} := case_print {a} {b} {c}.\n") for j, (a, b, c) in enumerate(sorted(tree_print))]
+    n1 = len(tdefs2)
+    tdefs2 += [(n1 + j, f"Definition c0_{n1 + j} := case_time_print {a} {b} {c} (Some {d}).\n") for j, (a, b, c, d) in enumerate(sorted(tree_time))]
+    (bad_tree,), broken6 = shards("Cases_C05_tree_", tdefs2, 1)
+    run.log(f"writer trees: {len(tree_print)} distinct style attributes and {len(tree_time)} distinct time expressions of the written trees against the model's printers, mismatches {len(bad_tree)}"
+            + (f", first {tdefs2[bad_tree[0]][1][:300]}" if bad_tree else ""))
     run.log(f"documents: {ndoc} generated, {wrote} written, {nrt} re-read and compared, {nsnap} snapshot pairs in {time.time() - t0:.1f}s; "
             f"S failures: times {len(bad_rt_t)}, order {len(bad_rt_o)}, values {len(bad_rt_v)}")
     for k, lst in (("time moved by a unit or more / representable time not exact", bad_rt_t), ("order of sibling offsets changed", bad_rt_o),
@@ -614,8 +649,8 @@ def main():
         run.violation(f"{u[0]}: {str(u[1:])[:300]}", dict(kind="S-on-code", failure=u[0], detail=[str(x) for x in u[1:]]))
     rc, out = C.coqc(C.COQ + "/Findings/C05.v", 600)
     if rc != 0: run.cov["stale_findings"] = ["coq/Findings/C05.v no longer compiles: " + out[-300:]]
-    n_mism = len(bad_print) + len(bad_px) + len(bad_g) + len(bad_t) + len(bad_x)
-    all_broken = broken1 + broken2 + broken3 + broken4 + broken5
+    n_mism = len(bad_print) + len(bad_px) + len(bad_g) + len(bad_t) + len(bad_x) + len(bad_tree)
+    all_broken = broken1 + broken2 + broken3 + broken4 + broken5 + broken6
     if (n_mism or all_broken or not proofs_ok) and not unlisted:
         what = []
         if not proofs_ok: what.append("theorems of coq/Properties/C05.v no longer check: " + getattr(run, "proof_log", "")[-600:])
@@ -623,6 +658,7 @@ def main():
         if bad_px: what.append(f"has_px disagrees on {len(bad_px)} values, first {vinfo[bad_px[0]][:2]}")
         if bad_g: what.append(f"format_g disagrees with format(x,'g') on {len(bad_g)} numbers, first {ginfo[bad_g[0]]}")
         if bad_t: what.append(f"to_time_format disagrees on {len(bad_t)} inputs, first {tinfo[bad_t[0]]}")
+        if bad_tree: what.append(f"the attributes of the tree built by imsc.writer.from_model disagree with the model's printers on {len(bad_tree)} attributes, first {tdefs2[bad_tree[0]][1][:300]}")
         if bad_x: what.append(f"extract_style disagrees with extract on {len(bad_x)} strings, first {xi[bad_x[0]]}")
         if all_broken: what.append(f"case files did not evaluate: {all_broken[0]}")
         run.violation("; ".join(what), dict(kind="broken-tie", theorem_file="coq/Properties/C05.v", proofs_ok=proofs_ok), found_input=False)
